@@ -2442,7 +2442,12 @@ FROM (
             if ds:
                 # Normalize column order across all branches to prevent
                 # positional type mismatches in UNION ALL.
+                # The assignment's output structure only describes this union when the union is
+                # the whole right-hand side; under a clause (union(...)[rename ...]) it is the
+                # structure *after* the clause, so fall back to the first operand's.
                 output_ds = self._get_output_dataset()
+                if output_ds is not None and set(output_ds.components) != set(ds.components):
+                    output_ds = None
                 order_ds = output_ds if output_ds else ds
                 col_order = list(order_ds.components.keys())
                 ordered_cols = ", ".join(quote_name(c) for c in col_order)
